@@ -13,6 +13,7 @@ import (
 	"github.com/0xPolygon/cdk-contracts-tooling/contracts/pp/l2-sovereign-chain/polygonzkevmbridgev2"
 	"github.com/agglayer/aggkit/bridgesync"
 	"github.com/ethereum/go-ethereum/common"
+	"github.com/ethereum/go-ethereum/crypto"
 )
 
 func init() { scenarios["claimtrace"] = Scenario{Gen: ctGen, Replay: ctReplay} }
@@ -140,6 +141,31 @@ func (f *ctFrame) toJSON() ctJSON {
 var ctErrs = []string{"execution reverted", "out of gas", "invalid opcode: INVALID", "execution reverted", "stack underflow (0 <=> 2)",
 	"write protection", "invalid jump destination", "max call depth exceeded", "insufficient balance for transfer"}
 
+// every recorded detail, field by field, against what the call `m` carried (see ctFrame.input): both proofs in full, both
+// exit roots, the global exit root derived from them; the old contract generation has no rollup proof at all
+func ctAllFields(c *bridgesync.Claim, m *ctFrame) bool {
+	var mer, rer common.Hash
+	mer[0], rer[0] = byte(m.id), byte(m.id+1)
+	if c.MainnetExitRoot != mer || c.RollupExitRoot != rer || c.GlobalExitRoot != crypto.Keccak256Hash(mer[:], rer[:]) {
+		return false
+	}
+	etrog := m.kind == 'a' || m.kind == 'm'
+	for i := 0; i < 32; i++ {
+		var want common.Hash
+		want[0], want[31] = byte(m.id), byte(i)
+		if c.ProofLocalExitRoot[i] != want {
+			return false
+		}
+		if etrog && c.ProofRollupExitRoot[i] != want {
+			return false
+		}
+		if !etrog && c.ProofRollupExitRoot[i] != (common.Hash{}) {
+			return false
+		}
+	}
+	return true
+}
+
 type ctClient struct{ trace []byte }
 
 func (c *ctClient) Call(result any, method string, args ...any) error {
@@ -204,7 +230,8 @@ func ctExec(r *Run, line string) {
 		okm := false
 		for _, m := range matches {
 			if uint32(m.id) == c.DestinationNetwork && ctAddr(m.sender) == c.FromAddress && (m.kind == 'm' || m.kind == 'M') == c.IsMessage &&
-				string(c.Metadata) == fmt.Sprintf("meta-%d", m.id) && c.MainnetExitRoot[0] == byte(m.id) && c.ProofLocalExitRoot[3][0] == byte(m.id) {
+				string(c.Metadata) == fmt.Sprintf("meta-%d", m.id) && c.MainnetExitRoot[0] == byte(m.id) && c.ProofLocalExitRoot[3][0] == byte(m.id) &&
+				ctAllFields(c, m) {
 				okm = true
 			}
 		}
